@@ -329,6 +329,13 @@ Proof.
   change (c_sl =? c_sl) with true. cbv iota. exact R.
 Qed.
 
+Lemma no_bad_pct P : forallb path_char P = true -> bad_pct P = false.
+Proof.
+  induction P as [|c P IH]; simpl; intro H; [reflexivity|].
+  apply andb_true_iff in H as [A B0].
+  destruct (N.eqb_spec c c_pct); [subst; vm_compute in A; discriminate|now apply IH].
+Qed.
+
 Definition link_ok (ref : str) : Prop := forallb printable ref = true.
 
 Lemma no_qm_path P : forallb path_char P = true -> contains c_qm P = false.
@@ -353,7 +360,7 @@ Proof.
   assert (G : get_scheme (P ++ c_qm :: Q) = SNone) by (rewrite E; reflexivity).
   rewrite G. unfold parse_rest. rewrite cut_app by (now apply no_qm_path).
   rewrite E. cbn [has_prefix]. change (c_sl =? c_sl) with true. rewrite (N.eqb_sym c_sl ch), Hc. cbn [andb negb].
-  rewrite <- E. rewrite HP, HQ. cbn [andb].
+  rewrite <- E. rewrite (no_bad_pct P HP), HP, HQ. cbn [andb].
   cbn [p_scheme p_host p_path p_query]. rewrite (resolve_path_abs _ P segs C). now destruct P.
 Qed.
 
@@ -367,7 +374,7 @@ Proof.
   cbn [contains existsb]. change (c_qm =? c_hash) with false. cbn [orb].
   change (existsb (fun d => d =? c_hash) Q) with (contains c_hash Q). rewrite (no_hash_query Q HQ).
   change (get_scheme (c_qm :: Q)) with SNone. unfold parse_rest. cbn [cut]. rewrite N.eqb_refl.
-  cbn [has_prefix negb andb contains existsb cut fst forallb]. rewrite HQ.
+  cbn [has_prefix negb andb contains existsb cut fst forallb bad_pct]. rewrite HQ.
   cbn [p_scheme p_host p_path p_query].
   now rewrite (resolve_path_clean _ segs C).
 Qed.
@@ -399,7 +406,7 @@ Proof.
   assert (T2 : has_prefix [c_sl; c_sl] (c_sl :: c_sl :: h ++ P) = true) by reflexivity.
   assert (T1 : has_prefix [c_sl] (c_sl :: c_sl :: h ++ P) = true) by reflexivity.
   rewrite T1, T3, T2. cbn [negb andb skipn].
-  rewrite E. rewrite cut_app by (now apply no_sl_host). rewrite <- E. rewrite Hok, HP, HQ. cbn [andb].
+  rewrite E. rewrite cut_app by (now apply no_sl_host). rewrite <- E. rewrite Hok, (no_bad_pct P HP), HP, HQ. cbn [andb].
   now destruct sch.
 Qed.
 
